@@ -136,7 +136,7 @@ func parseTransactionAndMetaFromNode(
 			return solana.Transaction{}, nil, err
 		} else if len(tx.Signatures) == 0 {
 			klog.Errorf("transaction has no signatures")
-			return solana.Transaction{}, nil, err
+			return solana.Transaction{}, nil, fmt.Errorf("transaction has no signatures")
 		}
 	}
 
@@ -149,7 +149,7 @@ func parseTransactionAndMetaFromNode(
 			uncompressedMeta, err := tooling.DecompressZstd(metaBuffer)
 			if err != nil {
 				klog.Errorf("failed to decompress metadata: %v", err)
-				return
+				return solana.Transaction{}, nil, fmt.Errorf("failed to decompress metadata: %w", err)
 			}
 			status, err := solanatxmetaparsers.ParseAnyTransactionStatusMeta(uncompressedMeta)
 			if err != nil {
